@@ -58,7 +58,8 @@ def emission_tie(ctx):
     from harness.extract import emission_src
     return _run(ctx, "emission", emission_src.generate, "LdarModel.Props.EmissionTie",
                 "LdarModel/Props/EmissionTie.lean",
-                more=[("LdarModel.Props.EmissionOnSource", "LdarModel/Props/EmissionOnSource.lean")],
+                more=[("LdarModel.Props.EmissionOnSource", "LdarModel/Props/EmissionOnSource.lean"),
+                      ("LdarModel.Props.EmissionRecord", "LdarModel/Props/EmissionRecord.lean")],
                 validate=_emission_validate, driver="drv_emission_src")
 
 
